@@ -33,8 +33,10 @@
 //!
 
 use crate::alias;
+use crate::chardef;
 use crate::def;
 use crate::math;
+use crate::mathchardef;
 use crate::registers;
 use std::collections::HashSet;
 use texcraft_stdext::collections::groupingmap;
@@ -75,7 +77,10 @@ impl Default for Tags {
             can_be_prefixed_with_any: vec![def::def_tag()].into_iter().collect(),
             can_be_prefixed_with_global: vec![
                 alias::let_tag(),
+                chardef::chardef_tag(),
+                crate::input::read_tag(),
                 math::variable_op_tag(),
+                mathchardef::mathchardef_tag(),
                 registers::countdef_tag(),
             ]
             .into_iter()
